@@ -355,6 +355,12 @@ class RaisedException(object):
     exc.details = safe_shift(args)
     exc.user_input = safe_shift(args, {})
     exc.user_input = decode_object(exc.user_input.get("u", RaisedException.NO_INPUT))
+    # The exception object itself is not saved. Keep a stand-in of a class with the saved name, so
+    # that a cell reading this one (which raises CellError around .error) reports the same error
+    # type after the document is reloaded, or the action redone, as it did before.
+    if isinstance(exc._name, str):
+      stand_in = type(exc._name, (Exception,), {})
+      exc.error = stand_in() if exc._message is None else stand_in(exc._message)
     return exc
 
 class CellError(Exception):
